@@ -41,6 +41,11 @@ func fixedScenarios() []*Scenario {
 		// every way to panic, in OnStop hooks and in reload hooks (SIGHUP and programmatic)
 		{Stops: []int{bPanicNilPtr, bOK, bPanicNilMap, bPanicIndex, bOK, bPanicDivZero, bPanicAssert, bPanicErr, bPanicCustom, bOK}},
 		{NReload: 1, Stops: []int{bOK}, Rounds: []Round{{Trig: 1, Beh: []int{bPanicNilPtr}, CancelAt: -1}, {Trig: 0, Beh: []int{bPanicIndex}, CancelAt: -1}, {Trig: 1, Beh: []int{bPanicAssert}, CancelAt: -1}, {Trig: 0, Beh: []int{bPanicCustom}, CancelAt: -1}}},
+		// hooks registered from inside the first OnStart hook; the stop signal as a deadline; a slow OnStop hook
+		{Metrics: true, LateReg: true, Starts: []int{bOK, bOK}, Readies: []int{bOK, bOK}, Shuts: []int{bOK, bOK}, Stops: []int{bOK, bOK}, Reqs: []Rel{{Kind: "H", J: 1}}},
+		{Tracing: true, ByDeadline: true, Starts: []int{bOK}, Readies: []int{bOK}, Shuts: []int{bOK, bOK}, Stops: []int{bOK}, Reqs: []Rel{{Kind: "D"}, {Kind: "H", J: 0}}},
+		{ByDeadline: true, Starts: []int{bOK, bBlock}, Stops: []int{bOK}},
+		{Tracing: true, Shuts: []int{bOK}, Stops: []int{bOK, bBlock, bOK}, Reqs: []Rel{{Kind: "D"}}},
 		// a SIGHUP during the shutdown sequence (with and without reload hooks): the process must survive it
 		{NReload: 1, Shuts: []int{bOK, bOK}, Stops: []int{bOK}, LateHup: 1},
 		{NReload: 2, Metrics: true, Stops: []int{bOK, bOK}, Reqs: []Rel{{Kind: "D"}}, LateHup: 2},
@@ -195,6 +200,26 @@ func genScenario(r *hx.Rand, tier string) *Scenario {
 		sc.Metrics, sc.MetDead, sc.MetricsRace, sc.Starts = true, false, true, nil
 		if sc.Listen == lOK || sc.Listen == lCert {
 			sc.Listen = lBusy
+		}
+	}
+	if len(sc.Starts) > 0 && r.Chance(1, 8) {
+		sc.LateReg = true
+	}
+	if r.Chance(1, 7) {
+		sc.ByDeadline = true
+	}
+	if len(sc.Stops) > 0 && r.Chance(1, 12) {
+		// a slow OnStop hook is the only wait of its scenario
+		sc.Stops[r.Intn(len(sc.Stops))] = bBlock
+		for i, b := range sc.Shuts {
+			if b == bBlock {
+				sc.Shuts[i] = bOK
+			}
+		}
+		for i, q := range sc.Reqs {
+			if q.Kind == "N" || (q.Kind == "H" && q.J >= len(sc.Shuts)) {
+				sc.Reqs[i] = Rel{Kind: "D"}
+			}
 		}
 	}
 	// Scenarios that use the process-wide SIGHUP (or read goroutine dumps) run one after the other; most of
